@@ -539,10 +539,31 @@ func c12printers(c *an.Ctx) {
 			if len(ce.Args) != 4 {
 				continue
 			}
-			prec, _ := constant.Int64Val(constant.ToInt(f.Info.Types[ce.Args[2]].Value))
 			fm, _ := litValue(f.Info, ce.Args[1])
-			if fm == "f" && prec < 1 {
+			// the precision: a constant, or a local whose every definition is a constant
+			// (`prec := -1; if big { prec = 1 }`) — then every value it can take is judged
+			var precs []int64
+			if v := f.Info.Types[ce.Args[2]].Value; v != nil {
+				pv, _ := constant.Int64Val(constant.ToInt(v))
+				precs = append(precs, pv)
+			} else if id, ok := ast.Unparen(ce.Args[2]).(*ast.Ident); ok {
+				for _, d := range localDefs(f)[f.Info.ObjectOf(id)] {
+					if d == nil {
+						continue
+					}
+					if v := f.Info.Types[d].Value; v != nil {
+						pv, _ := constant.Int64Val(constant.ToInt(v))
+						precs = append(precs, pv)
+					}
+				}
+			}
+			sort.Slice(precs, func(i, j int) bool { return precs[i] < precs[j] })
+			for _, prec := range precs {
+				if !(fm == "f" && prec < 1) {
+					continue
+				}
 				r3.Fail("NumberLiteral.RenderBytes: FormatFloat(v,'f',"+fmt.Sprint(prec)+")", c.P.Pos(ce.Pos()), "strconv.FormatFloat(v, 'f', %d, 64) prints an integral float without a fraction (2.0 → \"2\"): the store node re-parses it as an IntegerLiteral and evaluates integer arithmetic (`iv / 2.0` becomes `iv / 2`)", prec)
+				break
 			}
 		}
 		r3.AddSites(k)
@@ -1318,6 +1339,9 @@ func c12floatsPrintedPlain(c *an.Ctx) {
 		b, ok := t.Underlying().(*types.Basic)
 		return ok && (b.Kind() == types.Float64 || b.Kind() == types.Float32)
 	}
+	// the printers, and the functions of the package they call (formatting helpers), two levels deep
+	var scope []*ast.FuncDecl
+	inScope := map[*ast.FuncDecl]bool{}
 	for _, file := range pkg.Syntax {
 		if strings.HasSuffix(c.P.Fset.Position(file.Pos()).Filename, "_test.go") {
 			continue
@@ -1328,6 +1352,31 @@ func c12floatsPrintedPlain(c *an.Ctx) {
 				continue
 			}
 			n++
+			scope = append(scope, fd)
+			inScope[fd] = true
+		}
+	}
+	for lvl, from := 0, 0; lvl < 2; lvl++ {
+		upto := len(scope)
+		for _, fd := range scope[from:upto] {
+			ast.Inspect(fd.Body, func(m ast.Node) bool {
+				ce, ok := m.(*ast.CallExpr)
+				if !ok {
+					return true
+				}
+				if cal := an.Callee(info, ce); cal != nil && cal.Pkg() == pkg.Types {
+					if src := c.P.Src(cal); src != nil && src.Decl.Body != nil && !inScope[src.Decl] && src.Decl.Name.Name != "String" && src.Decl.Name.Name != "RenderBytes" {
+						inScope[src.Decl] = true
+						scope = append(scope, src.Decl)
+					}
+				}
+				return true
+			})
+		}
+		from = upto
+	}
+	{
+		for _, fd := range scope {
 			ast.Inspect(fd.Body, func(m ast.Node) bool {
 				ce, ok := m.(*ast.CallExpr)
 				if !ok {
@@ -1342,14 +1391,14 @@ func c12floatsPrintedPlain(c *an.Ctx) {
 					for _, a := range ce.Args {
 						if isFloat(a) {
 							floats++
-							r.Fail(fd.Name.Name+" of "+types.ExprString(fd.Recv.List[0].Type)+": float through fmt", c.P.Pos(ce.Pos()), "%s formats the float64 %s with fmt.%s: values below 1e-4 or from 1e21 on are printed with an exponent, which the InfluxQL scanner does not read back as the same number", fd.Name.Name, types.ExprString(a), cal.Name())
+							r.Fail(c12who(fd)+": float through fmt", c.P.Pos(ce.Pos()), "%s formats the float64 %s with fmt.%s: values below 1e-4 or from 1e21 on are printed with an exponent, which the InfluxQL scanner does not read back as the same number", fd.Name.Name, types.ExprString(a), cal.Name())
 						}
 					}
 				case cal.Pkg().Path() == "strconv" && cal.Name() == "FormatFloat" && len(ce.Args) == 4:
 					floats++
 					tv, ok := info.Types[ce.Args[1]]
 					if !ok || tv.Value == nil || tv.Value.String() != "102" {
-						r.Fail(fd.Name.Name+" of "+types.ExprString(fd.Recv.List[0].Type)+": float format", c.P.Pos(ce.Pos()), "strconv.FormatFloat is called with format %s, not 'f': exponent notation is not InfluxQL", types.ExprString(ce.Args[1]))
+						r.Fail(c12who(fd)+": float format", c.P.Pos(ce.Pos()), "strconv.FormatFloat is called with format %s, not 'f': exponent notation is not InfluxQL", types.ExprString(ce.Args[1]))
 					}
 				}
 				return true
@@ -1361,4 +1410,11 @@ func c12floatsPrintedPlain(c *an.Ctx) {
 	if floats < 2 {
 		r.Fail("float printers", "", "expected at least 2 float formatting sites in the printers (number literal, set literal), found %d", floats)
 	}
+}
+
+func c12who(fd *ast.FuncDecl) string {
+	if fd.Recv != nil && len(fd.Recv.List) > 0 {
+		return fd.Name.Name + " of " + types.ExprString(fd.Recv.List[0].Type)
+	}
+	return fd.Name.Name
 }
